@@ -1,3 +1,4 @@
 pub mod damage;
 pub mod tokens;
 pub mod grammar;
+pub mod scoped;
